@@ -223,4 +223,21 @@ CHECKS['C15'] = dict(
     note='flask_login is a stand-in (shims/); a correct use after a failed attempt may go either way in the model '
          '(the implementation burns tokens on any attempt) and the replayer follows the branch taken.')
 
+CHECKS['C16'] = dict(
+    engine='explorer+tlc',
+    technique='bounded-exhaustive hostile-option sweep over route instances; exhaustive single-fault mutation of MP4 seeds; TLA+ model ErrInject checked by TLC with all paths/edges replayed through HTTP',
+    design_ref='DESIGN.md §7 C16',
+    text='(1) 140 route instances (every manifest/media/patch/mps/time/html/api route x existing, missing and ill-typed '
+         'path parameters x streams with missing pieces: no media, no timing reference, un-indexed file, no encrypted '
+         'media) x every registered option name x 40 hostile values (deviation level 1), 16 option pairs at level 2, '
+         'header and JSON-body type confusion: status < 500, no unhandled exception, answer within 10 s. '
+         '(2) every truncation, header bit flip and size-field edit of 5 small MP4 seeds through Mp4Atom.load (eager, '
+         'lazy, encode, toJSON; 5 s budget; seeds must parse - non-vacuity) and through upload/index/info/serve/'
+         'inspect. (3) models/ErrInject.tla (2 sessions x 2 media types, 6 code/failure-count configurations) '
+         'checked by TLC; all paths <= 3 (5) replayed for $Number$, $Time$ and manifest variants and all edges for '
+         '$Number$: every response must be the prescribed one (or lie in the allowed set).',
+    note='Crash signature = exception type + innermost repository frame; requested synthetic errors are excluded '
+         'from (1) and judged by (3); /media/inspect POST is an async view this sandbox cannot run (asgiref missing), '
+         'its synchronous part is driven inside a request context.')
+
 NOT_BUILT = {}
